@@ -63,6 +63,32 @@ func (s *longStream) packet(pid uint16, pusi bool, payload []byte) {
 	s.n++
 }
 
+// afPacket appends one packet with the given header bits and adaptation field content (flags byte and what follows it; the length
+// byte is added): 4 + 1 + len(af) + len(payload) must be 188. With repeat the packet carries the counter of the previous packet of the
+// PID again (a duplicate, or something that looks like one).
+func (s *longStream) afPacket(pid uint16, pusi, prio bool, tsc uint8, af, payload []byte, repeat bool) {
+	if 5+len(af)+len(payload) != 188 {
+		panic("afPacket: sizes")
+	}
+	cc := s.cc[pid]
+	if repeat {
+		cc = (cc + 15) & 0xf
+	} else {
+		s.cc[pid] = (cc + 1) & 0xf
+	}
+	h1 := byte(pid >> 8 & 0x1f)
+	if pusi {
+		h1 |= 0x40
+	}
+	if prio {
+		h1 |= 0x20
+	}
+	s.b = append(s.b, 0x47, h1, byte(pid), tsc<<6|0x30|cc, byte(len(af)))
+	s.b = append(s.b, af...)
+	s.b = append(s.b, payload...)
+	s.n++
+}
+
 // unit appends the packets of one unit whose payload bytes are given; returns the number of packets.
 func (s *longStream) unit(pid uint16, payload []byte) int {
 	n := 0
